@@ -645,6 +645,7 @@ Notes:
         self.__internals[0] = self.__internals[0][:] # decouple x1 from x
         x1, fx, bigind, delta = self.__internals
         init = False  # flag to do 0th iteration 'post-initialization'
+        logged = False # flag that a generation was logged in this step
 
         if not len(self._stepmon): # do generation = 0
             init = True
@@ -662,8 +663,7 @@ Notes:
             fval = squeeze(cost(x))
             if self._maxiter != 0:
                 self._stepmon(x, fval, self.id) # get initial values
-                # if savefrequency matches, then save state
-                self._AbstractSolver__save_state()
+                logged = True
 
         elif not self.generations: # do generations = 1
             ilist = range(len(x))
@@ -714,8 +714,7 @@ Notes:
             self.popEnergy[0] = fval # bestEnergy
             self.energy_history = None # resync with 'best' energy
             self._stepmon(x, fval, self.id) # get ith values
-            # if savefrequency matches, then save state
-            self._AbstractSolver__save_state()
+            logged = True
 
             fx = fval
             bigind = 0
@@ -740,6 +739,8 @@ Notes:
         self._direc = direc
         self.population[0] = x   # bestSolution
         self.popEnergy[0] = fval # bestEnergy
+        # if savefrequency matches, then save state (with internals in sync)
+        if logged: self._AbstractSolver__save_state()
 
         # do callback
         if callback is not None: callback(self.bestSolution)
